@@ -3,11 +3,12 @@ CONSTANTS
   RootName = "f"
   AliasNames = {"a"}
   VarNames = {"v"}
-  RefChoices <- MCRefChoices
+  RefChoices <- SimRefChoices
   KindChoices <- MCKindChoices
   MaxEd = 2
   MaxVal = 2
   MaxObjs = 12
+  MaxLocks = 1
   MaxEvents = 10
   KF_DefaultsNotHashed = FALSE
   KF_AdoptCached = FALSE
